@@ -1,6 +1,11 @@
+mod alloc;
 mod common;
 mod observe;
 mod props;
+mod worker;
+
+#[global_allocator]
+static GLOBAL: alloc::Counting = alloc::Counting;
 
 use mc_core::explore::{Ctx, Tier};
 use std::path::PathBuf;
@@ -45,6 +50,7 @@ fn main() {
             let code = props::run(&prop, tier, Some(only));
             std::process::exit(code);
         }
+        "worker" => worker::child_main(),
         "selftest" => {
             let ctx = Ctx::new("SELFTEST", Tier::Quick, "other", &root());
             std::process::exit(props::selftest::run(&ctx));
